@@ -8,6 +8,10 @@ NOTE = ("Trusted base: Coq 8.16.1 kernel; no axioms (Print Assumptions closed); 
         "hand-written Gallina model tied to /repo by a differential correspondence check (Rust harness with cfg plonk_verif hooks vs model extracted "
         "with ExtrOcamlBasic+ExtrOcamlZBigInt); the Rust code is modelled, not verified.")
 CLAIMED = {
+ "C02": dict(
+   text="Partial by nature: soundness of PLONK rests on KZG knowledge binding (AGM) and Fiat-Shamir in the random-oracle model, which are assumptions here. Mechanised parts: a non-zero identity polynomial vanishes at fewer than its length many challenge points (C02_accept_bad_z_bound), the challenge-combined row identity implies every widget component outside a bounded bad set of separation challenges (C02_rows_sat_outside_bad_challenges), an opening that checks as a polynomial identity in the SRS secret carries the true evaluation (C02_opening_exact_agm_partial), and the row evaluator used as oracle is exact (C02_row_evaluator_exact). Together with C03 (the real verifier = the Gallina reference verifier, by correspondence) this reduces acceptance of a false statement to the named assumptions. On every run the named prover strategies are executed against the real verifier: the real prover forced past its unsatisfied check (cfg-guarded switch) on overridden witnesses, raw rows of all five widget families, single range/logic rows with each wire perturbed in isolation (classified per violated component), public-input mismatches and broken copy constraints; field-wise splices of valid proofs; degenerate proofs. The proved evaluator decides which statements are false; every one must be rejected by the real verifier and by the reference verifier.",
+   technique="Coq lemmas (root bound, separation, AGM opening exactness, evaluator exactness) + forced-prover / splice / degenerate adversarial runs against the real verifier with the proved evaluator as oracle and the Gallina reference verifier as second opinion",
+   design="5/C02"),
  "C03": dict(
    text="A complete reference verifier is written in Gallina (Protocol/RefVerifier.v on top of Gallina models of Keccak-f/STROBE/Merlin, BLS12-381 G1 decompression with subgroup check, the 56 protocol labels and the linearisation/batching algebra of both transcript versions) and run, extracted, on the same (verifier key, proof, public inputs) triples as the real Verifier::verify_with_version; the pairing is replaced by the exponent check x*A+B=O with the harness's known SRS secret. Verdicts AND every derived challenge (beta, gamma, alpha, four separation challenges, z, v, v_w, u - exposed by a cfg-guarded hook) must agree on honest proofs, on every single-field replacement, bit flips, cross-circuit and cross-version proofs and public-input changes. Theorems: the fused L_1/PI summand equals value*L_i(z) (C03_fused_term_is_lagrange), all five widget terms are recoverable from the combined equation (C03_all_widgets_in_equation), Merlin's length framing is injective (C03_frame_injective). The equality real-verifier = RefVerifier is established by correspondence, not proved; when the transcript tie breaks, a forged opening pair exploiting the missing absorption is searched and replayed.",
    technique="Gallina reference verifier (Keccak/Merlin/G1/linearisation) + Coq lemmas + differential correspondence of verdict and all challenges with the real verifier",
